@@ -96,7 +96,16 @@ func (lib *SpecLib) Script(o *Obligation, style string, wantModel bool) string {
 			}
 		}
 	}
+	for _, n := range lib.DatatypeOrder {
+		if _, used := si.sorts[n]; !used {
+			continue
+		}
+		fmt.Fprintf(&b, "(declare-datatypes ((%s 0)) (%s))\n", symName(n), lib.Datatypes[n])
+	}
 	for _, n := range sortedKeys(si.sorts) {
+		if _, isDT := lib.Datatypes[n]; isDT {
+			continue
+		}
 		fmt.Fprintf(&b, "(declare-sort %s 0)\n", symName(n))
 	}
 	for _, n := range sortedKeys(si.strs) {
@@ -127,6 +136,9 @@ func (lib *SpecLib) Script(o *Obligation, style string, wantModel bool) string {
 	// opaque functions
 	for _, fn := range sortedKeys(si.funs) {
 		if defined[fn] != nil {
+			continue
+		}
+		if f := lib.Funs[fn]; f != nil && f.Builtin {
 			continue
 		}
 		var args []*Sort
